@@ -529,8 +529,11 @@ func (h *hist) rebaseStep() {
 func (h *hist) boundaryPair(nodes []int) (int, int) {
 	best := [2]int{nodes[0], nodes[len(nodes)-1]}
 	want := 140 + h.rng.Intn(10)
+	if h.rng.Intn(2) == 0 {
+		want = 143 + h.rng.Intn(4) // right at the limit: 143, 144 | 145, 146
+	}
 	bestDiff := 1 << 30
-	for try := 0; try < 300; try++ {
+	for try := 0; try < 600 && bestDiff > 0; try++ {
 		a, b := nodes[h.rng.Intn(len(nodes))], nodes[h.rng.Intn(len(nodes))]
 		d := h.dist(a, b)
 		diff := d - want
@@ -727,11 +730,13 @@ func (h *hist) run(steps int) {
 			case r < 75:
 				h.x.ensureFresh()
 				h.x.LookupSweep()
-			case r < 90:
+			case r < 88:
 				h.grow()
 				if h.rng.Intn(5) > 0 {
 					h.x.Obs()
 				}
+			case r < 94:
+				h.txsetStep() // copies handed out with the broadcast set must not alias the pool
 			default:
 				h.mineAdopt()
 				h.x.Obs()
